@@ -1,12 +1,14 @@
 package checks
 
 import (
+	"bytes"
 	"encoding/json"
 	"fmt"
 	"os"
 	"path/filepath"
 	"sort"
 	"strings"
+	"sync"
 
 	"verif/internal/batch"
 	"verif/internal/cli"
@@ -260,8 +262,19 @@ func c12(ctx *Ctx) (*Outcome, error) {
 	}
 	results := make([]obs, len(cases))
 	totalRuns := 0
+	var stdoutMu sync.Mutex
+	var stdoutBadAll []string
+	stdoutRunsAll := 0
 	stage.Parallel(len(cases), func(i int) {
 		c := cases[i]
+		var stdoutBad []string
+		stdoutRuns := 0
+		defer func() {
+			stdoutMu.Lock()
+			stdoutBadAll = append(stdoutBadAll, stdoutBad...)
+			stdoutRunsAll += stdoutRuns
+			stdoutMu.Unlock()
+		}()
 		o := obs{fps: map[string]int{}, example: map[string]string{}}
 		record := func(kind string, r *cli.Result) {
 			fp := r.Fingerprint()
@@ -290,6 +303,40 @@ func c12(ctx *Ctx) (*Outcome, error) {
 			}
 			record("respelled-options", cli.Run(ctx.Env, &cli.Inv{Files: c.files(nil), Args: a}))
 		}
+		// no output file named: the same bytes go to standard output, and nothing is written
+		if !hasOutputMapping(c.opts) {
+			var a []string
+			for k := 0; k < len(c.args()); k++ {
+				if c.args()[k] == "-o" {
+					k++
+					continue
+				}
+				a = append(a, c.args()[k])
+			}
+			rf := cli.Run(ctx.Env, &cli.Inv{Files: c.files(nil), Args: c.args()})
+			rs := cli.Run(ctx.Env, &cli.Inv{Files: c.files(nil), Args: a})
+			want := rf.Out("gen/out.go")
+			if rf.Proc.Exit == 0 && (rs.Proc.Exit != 0 || !bytes.Equal(rs.Proc.Stdout, append(append([]byte{}, rf.Proc.Stdout...), want...)) || len(rs.Outputs()) != 0) {
+				stdoutBad = append(stdoutBad, fmt.Sprintf("options=%v: with -o the file has %d bytes, without it stdout has %d bytes, exit %d, files written %d (%s)", c.opts, len(want), len(rs.Proc.Stdout), rs.Proc.Exit, len(rs.Outputs()), rs.Dir))
+			} else {
+				rs.Cleanup()
+			}
+			stdoutRuns++
+			rf.Cleanup()
+		}
+		// stale outputs: every file a run writes exists already - longer, with other content, read-write: what is on
+		// disk afterwards is what the run emitted, nothing of what was there before
+		{
+			r0 := cli.Run(ctx.Env, &cli.Inv{Files: c.files(nil), Args: c.args()})
+			seed := map[string][]byte{}
+			for n, b := range r0.Outputs() {
+				seed[n] = append(append([]byte("// stale content of an earlier run\npackage stale\n"), b...), bytes.Repeat([]byte("// stale tail\n"), 2000)...)
+			}
+			r0.Cleanup()
+			if len(seed) > 0 {
+				record("stale-outputs", cli.Run(ctx.Env, &cli.Inv{Files: c.files(nil), Args: c.args(), Seed: seed}))
+			}
+		}
 		// relocation: another absolute directory (deeper, different name); the cwd stays the schema root so that
 		// relative arguments are the same
 		deep := filepath.Join(ctx.Env.St.TempDir("reloc"), "moved", "elsewhere", fmt.Sprintf("x%d", i))
@@ -311,6 +358,13 @@ func c12(ctx *Ctx) (*Outcome, error) {
 		results[i] = o
 	})
 	var viols []Viol
+	for k, msg := range stdoutBadAll {
+		if k < 3 {
+			rp := filepath.Join(evid.ReplayDir(), fmt.Sprintf("C12-stdout-%d.txt", k))
+			_ = os.WriteFile(rp, []byte(msg+"\n"), 0o644)
+			viols = append(viols, Viol{Replay: rp, Summary: "the code written to standard output differs from the code written to the file named with -o: " + msg})
+		}
+	}
 	sigs := map[string]bool{}
 	var samples []any
 	okCases, failCases := 0, 0
@@ -376,6 +430,7 @@ func c12(ctx *Ctx) (*Outcome, error) {
 		"cases_exit0":               okCases,
 		"cases_refused":             failCases,
 		"process_runs":              totalRuns,
+		"stdout_vs_file_pairs":      stdoutRunsAll,
 		"concurrent_generator_runs": raceRuns,
 		"race_reports":              raceReports,
 	}
